@@ -247,6 +247,85 @@ func main() {
 		}
 	}
 	nfr := len(e.FM().GetAllFracs())
+	// restart: the sealed fractions come back from .frac-cache and are loaded by their first request.  Many requests
+	// arrive at once, so that several of them are the first on the same fraction (the lazy initialisation of a sealed
+	// fraction is a step of its own in a reader's life; under -race an unsynchronised second load is reported)
+	if len(problems) == 0 {
+		// many more sealed fractions, so that the coinciding first requests below get many chances
+		for k := 0; k < 80; k++ {
+			d := doc(9, k+1)
+			if err := e.Bulk([]env.Doc{d}); err != nil {
+				problem("bulk before the restart failed: %v", err)
+				break
+			}
+			ackedList = append(ackedList, d)
+			e.Seal()
+		}
+		if err := e.Restart(); err != nil {
+			problem("restart after the workload failed: %v", err)
+		} else {
+			// every fraction gets its first requests from 12 goroutines released together
+			ast0, _ := lit("k", "t").Build()
+			sp := e.SearchParamsAST(ast0, env.Params{From: 0, To: 1 << 40, Limit: len(ackedList) + 10, Order: "desc"})
+			var found [12]int
+			for _, f := range e.FM().GetAllFracs() {
+				gate := make(chan struct{})
+				var gwg sync.WaitGroup
+				for r := 0; r < 12; r++ {
+					gwg.Add(1)
+					go func(r int) {
+						defer gwg.Done()
+						<-gate
+						qpr, err := env.FracSearch(f, sp)
+						evals.Add(1)
+						if err != nil {
+							problem("first search of a fraction after the restart failed: %v", err)
+							return
+						}
+						found[r] += len(qpr.IDs)
+					}(r)
+				}
+				close(gate)
+				gwg.Wait()
+			}
+			for r := range found {
+				if found[r] != len(ackedList) && len(problems) == 0 {
+					problem("after the restart: %d documents acknowledged, the first requests of the fractions find %d", len(ackedList), found[r])
+				}
+			}
+			start := make(chan struct{})
+			var fwg sync.WaitGroup
+			for r := 0; r < 24; r++ {
+				fwg.Add(1)
+				go func(r int) {
+					defer fwg.Done()
+					<-start
+					ast, _ := lit("k", "t").Build()
+					order := []string{"desc", "asc"}[r%2]
+					res, err := e.SearchAST(ast, env.Params{From: 0, To: 1 << 40, Limit: len(ackedList) + 10, Order: order, WithTotal: true})
+					evals.Add(1)
+					if err != nil {
+						problem("first search after the restart failed: %v", err)
+						return
+					}
+					if len(res.IDs) != len(ackedList) || int(res.Total) != len(ackedList) {
+						problem("after the restart: %d documents acknowledged, a first search finds %d (total %d)", len(ackedList), len(res.IDs), res.Total)
+						return
+					}
+					for i := r; i < len(ackedList); i += 97 {
+						d := ackedList[i]
+						docs, _, err := e.Fetch([]seq.ID{d.ID()}, nil)
+						if err != nil || !bytes.Equal(docs[0], d.BodyBytes()) {
+							problem("after the restart: document %d not fetchable with its bytes (%v)", d.RID, err)
+							return
+						}
+					}
+				}(r)
+			}
+			close(start)
+			fwg.Wait()
+		}
+	}
 	e.Close()
 	for i, p := range problems {
 		b, _ := json.Marshal(map[string]any{"n": i, "what": p})
